@@ -143,9 +143,20 @@ def run_instance(prop, name, P, tier, seed, budget):
         from .driver import assume
 
         def harness(**kw):  # noqa: F811
-            for c in codes:
-                assume(not eval(c, {"__builtins__": {"abs": abs, "len": len, "min": min, "max": max}}, dict(kw)))
-            return base(**kw)
+            # the listed regions are consulted only for FAILING paths (so they add no forks to passing ones): a failure inside a
+            # listed region is discarded (it is the known finding), any other failure is reported
+            def in_region():
+                env_ = {"__builtins__": {"abs": abs, "len": len, "min": min, "max": max, "chr": chr, "ord": ord}}
+                return any(eval(c, env_, dict(kw)) for c in codes)
+            try:
+                ok = base(**kw)
+            except Exception:
+                if in_region():
+                    assume(False)
+                raise
+            if not ok and in_region():
+                assume(False)
+            return ok
 
     from . import driver, stubs
     res = driver.explore(harness, lem.args, timeout=budget, per_path_timeout=lem.per_path, before_path=before)
